@@ -52,7 +52,7 @@ def coq_make(targets, jobs=16, timeout=7200):
             cmds.append('coq_makefile -f _CoqProject -o Makefile')
             if rc != 0:
                 return False, o + e, cmds
-        cmd = ['make', '-j%d' % jobs] + list(targets)
+        cmd = ['make', '-k', '-j%d' % jobs] + list(targets)   # -k: a failing proof must not keep the Exec layer from being rebuilt
         cmds.append('cd coq && ' + ' '.join(cmd))
         rc, o, e = run(cmd, cwd=COQ, timeout=timeout)
         return rc == 0, o + e, cmds
